@@ -128,7 +128,14 @@ func drawC16Stmt(tp *tape.Tape, idx int, r *core.Result, defined *[]string) c16S
 		g := c16Globals[tp.Draw(len(c16Globals))]
 		return c16Stmt{[]string{"write(toa(" + g + ") + \"|\" + toa(#" + g + "))"}, []byte{'t'}, false, "reread-global"}
 	}
-	switch tp.Draw(14) {
+	switch tp.Draw(16) {
+	case 14, 15: // a statement that ends in a runtime error: the session goes on in every mode
+		r.Inc("F1.failing_statement", 1)
+		f := []string{"[1, 2][7]", "10 / (3 - 3)", "\"s\" * 2", "nosuchfn(1)", "aton(\"zz\")", "1 + nosuchvar"}[tp.Draw(6)]
+		if tp.Bool() {
+			return c16Stmt{[]string{"{", "write(\"pre;\")", f, "write(\"never\")", "}"}, []byte{'b', 'b', 'b', 'b', 't'}, false, "failing-block"}
+		}
+		return c16Stmt{[]string{f}, []byte{'t'}, false, "failing"}
 	case 12, 13: // a statement whose value is a string: the REPL echoes it, -eval prints it
 		lit, sp, nl := c16String(tp, tp.Bool())
 		if sp {
@@ -253,7 +260,10 @@ func (C16) Run(tp *tape.Tape) core.Result {
 
 	// ---- twin: statements one at a time
 	twin := sess.New()
-	type exp struct{ out, val, str string }
+	type exp struct {
+		out, val, str string
+		failed        bool
+	}
 	exps := make([]exp, n)
 	for i, st := range stmts {
 		h.add(st.canon())
@@ -261,6 +271,11 @@ func (C16) Run(tp *tape.Tape) core.Result {
 		r.Statements++
 		o := outs[len(outs)-1]
 		r.Instructions += o.Steps
+		if strings.HasPrefix(st.kind, "failing") && len(outs) == 1 && o.Kind == sess.KError {
+			exps[i] = exp{out: o.Out, failed: true}
+			trace = trace.Str(o.Out).Str(o.Err)
+			continue
+		}
 		if len(outs) != 1 || o.Kind != sess.KValue {
 			if o.Kind == sess.KPanic {
 				r.Violation = panicViolation("twin-panic", o, h)
@@ -277,12 +292,17 @@ func (C16) Run(tp *tape.Tape) core.Result {
 			r.Sample = h
 			return r
 		}
-		exps[i] = exp{o.Out, o.Val, o.Str}
+		exps[i] = exp{out: o.Out, val: o.Val, str: o.Str}
 		trace = trace.Str(o.Out).Str(o.Val)
 	}
 	wantScript, wantRepl := "", "calc repl\n"
 	for _, e := range exps {
 		wantScript += e.out
+		if e.failed { // reports quote instruction indices, which differ between the modes' code: compared as a marker
+			wantScript += "RUNTIME ERROR"
+			wantRepl += e.out + "RUNTIME ERROR"
+			continue
+		}
 		wantRepl += e.out + "> " + e.val + "\n"
 	}
 	// optionally the program ends itself: a last statement writes and calls exit(code) from inside a
@@ -316,8 +336,21 @@ func (C16) Run(tp *tape.Tape) core.Result {
 			repl = append(repl, "")
 			r.Inc("F7.blank_line_between_statements", 1)
 		}
-		script = append(script, layout(tp, st, !last || finalNewline, &r)...)
-		repl = append(repl, layout(tp, st, false, &r)...)
+		sl := layout(tp, st, !last || finalNewline, &r)
+		rl := layout(tp, st, false, &r)
+		// a one-line statement may share its physical line with the one-line statement before it
+		if i > 0 && len(st.lines) == 1 && len(stmts[i-1].lines) == 1 && len(st.lines[0]) < 200 && len(stmts[i-1].lines[0]) < 200 && tp.Draw(4) == 0 &&
+			len(script) > 0 && len(repl) > 0 && script[len(script)-1] != "" && repl[len(repl)-1] != "" && !strings.Contains(script[len(script)-1], ";") && !strings.Contains(repl[len(repl)-1], ";") &&
+			!strings.Contains(st.lines[0], ";") && st.lines[0][0] >= 'a' && st.lines[0][0] <= 'z' {
+			// (calc has no statement separator: a statement that starts with a bracket, a sign, a digit or a
+			// quote could continue the expression before it, so only statements starting with a name share a line)
+			script[len(script)-1] += " " + strings.TrimSpace(st.lines[0])
+			repl[len(repl)-1] += " " + strings.TrimSpace(st.lines[0])
+			r.Inc("F7.statements_sharing_a_line", 1)
+			continue
+		}
+		script = append(script, sl...)
+		repl = append(repl, rl...)
 	}
 	scriptText := strings.Join(script, "\n")
 	if finalNewline {
@@ -357,7 +390,7 @@ func (C16) Run(tp *tape.Tape) core.Result {
 		if hung {
 			return out, -99
 		}
-		return out, code
+		return collapseReports(out), code
 	}
 	got, code := run("", sf)
 	if code != wantCode || got != wantScript {
@@ -384,7 +417,7 @@ func (C16) Run(tp *tape.Tape) core.Result {
 		fr := node.NewFReader(sf)
 		defer fr.Close()
 		node.Loop(fr, parser.Type{}, s.VM, false)
-		got := sess.TakeOutput()
+		got := collapseReports(sess.TakeOutput())
 		if got != wantScript {
 			r.Violation = &core.Violation{Clause: "file-mode-in-process", Detail: fmt.Sprintf("node.Loop over the file printed %q, statements one at a time print %q", trunc(got, 300), trunc(wantScript, 300)), History: h}
 		}
